@@ -896,7 +896,7 @@ WARM = (
     '  for x in (s.elements if s.is_space else s.candidates): yield from _walk(x)\n'
     'def _use(s):\n'
     '  [x.space_size for x in _walk(s)]; s.random_dna(random.Random(0))\n'
-    '  [s.validate(d) for d in I.islice(s.iter_dna(), 8)]\n')
+    '  [s.validate(d) for d in I.islice(s.iter_dna(), 5)]\n')
 
 
 # =============================================================================
@@ -1046,10 +1046,10 @@ def drv_space_size(tier, seed):
           continue
       kept.append(m)
     head = kept
-  t0 = time.time()
+  t0 = time.process_time()
   limit = 30 if tier == 'quick' else 530
   for i, m in enumerate(head + rest):
-    if i >= len(head) and time.time() - t0 > limit:
+    if i >= len(head) and time.process_time() - t0 > limit:
       break          # only the seeded sample is ever cut short
     want = count_members(m)
     spec = build(m)
@@ -1072,22 +1072,25 @@ def custom_iterable_roots():
 
 
 def _iteration_specs(tier, r):
+  """(number of specs that are always checked, specs)."""
   specs = custom_iterable_roots()
   if tier == 'quick':
     specs += leaf_family(4, 3)
     specs += handpicked_roots()
+    fixed = len(specs)
     specs += conditional_family([2], [1, 2, 3], [C, S2, S3], 40, r, 30)
     specs += conditional_family([3], [2], [C, S2], 60, r, 10)
     specs += conditional_family([2], [2], [C, SM, S22, SN], 60, r, 8)
   else:
     specs += leaf_family(5, 4)
     specs += handpicked_roots()
+    fixed = len(specs)
     specs += conditional_family([2], [1, 2, 3], [C, S2, S3], 250)
     specs += conditional_family([3], [1, 2, 3], [C, S2, S3], 250, r, 150)
     specs += conditional_family([2, 3], [2, 3], [C, SM, SMU, S22, SN, SNM],
                                 250, r, 120)
     specs += r.sample(gen_dps(6, 3, 3, 3), 150)
-  return specs
+  return fixed, specs
 
 
 def _iter_checks(cx, full_cap, light=False):
@@ -1168,7 +1171,7 @@ def _iter_checks(cx, full_cap, light=False):
     idx = list(range(n)) if n <= 6 else sorted(set(
         [0, n - 1] + r.sample(range(n), 2 if tier == 'quick' else 4)))
     if light:
-      idx = sorted(set([n - 1] + ([r.randrange(n)] if n else [])))
+      idx = [r.randrange(n)] if n else []
     # iteration resumed after a given (unbound) member, exclusive
     if 2 <= n <= (16 if tier == 'quick' else 10**9) and not light:
       i = r.randrange(n - 1)
@@ -1233,10 +1236,11 @@ def drv_iteration(tier, seed):
              'and seeded random members'))
   r = rng(seed, 'c11.iter')
   budget_s = 36 if tier == 'quick' else 520
-  t0 = time.time()
-  for m in _iteration_specs(tier, r):
-    if time.time() - t0 > budget_s:
-      break
+  t0 = time.process_time()
+  fixed, specs = _iteration_specs(tier, r)
+  for i, m in enumerate(specs):
+    if i >= fixed and time.process_time() - t0 > budget_s:
+      break          # only the seeded samples are ever cut short (CPU time)
     _iter_checks(Cx(rec, m, r, tier), full_cap)
   return rec.result()
 
@@ -1434,7 +1438,7 @@ def drv_membership(tier, seed):
              'is repeated on the same DNA object (still refused, DNA not '
              'marked as bound)'))
   r = rng(seed, 'c11.member')
-  t0 = time.time()
+  t0 = time.process_time()
   budget_s = 38 if tier == 'quick' else 540
   # fixed probes first, so that the kept witness of an id is the plainest one
   for m, t, kind in [
@@ -1454,7 +1458,7 @@ def drv_membership(tier, seed):
   per_spec_members = 6 if tier == 'quick' else 20
   per_spec_corrupt = 26 if tier == 'quick' else 120
   for m in specs:
-    if time.time() - t0 > budget_s:
+    if time.process_time() - t0 > budget_s:
       break
     _member_checks(Cx(rec, m, r, tier), per_spec_members, per_spec_corrupt,
                    10 if tier == 'quick' else 30)
@@ -1466,7 +1470,7 @@ def drv_membership(tier, seed):
              SP(ONE([S22, C]))]
   trees = small_trees([-1, 0, 1, None], 3)
   for m in tiny:
-    if time.time() - t0 > budget_s + 5:
+    if time.process_time() - t0 > budget_s + 5:
       break
     cx = Cx(rec, m, r, tier)
     for t in trees:
@@ -1612,7 +1616,7 @@ def drv_random_and_sweeping(tier, seed):
              'sweeping: specs of size<=12 (thorough 36) through propose(), iteration of the '
              'generator and recover()+propose()'))
   r = rng(seed, 'c11.random')
-  t0 = time.time()
+  t0 = time.process_time()
   budget_s = 38 if tier == 'quick' else 500
   draws = 8 if tier == 'quick' else 40
   specs = leaf_family(4, 3) + handpicked_roots() + infinite_roots()
@@ -1620,14 +1624,14 @@ def drv_random_and_sweeping(tier, seed):
     specs += conditional_family([2, 3], [1, 2, 3], [C, S2, SM, S22, SN, SF],
                                 10**9, r, 120)
   for m in specs:
-    if time.time() - t0 > budget_s * 0.6:
+    if time.process_time() - t0 > budget_s * 0.6:
       break
     _random_checks(Cx(rec, m, r, tier), draws)
   # ---------------- sweeping ---------------------------------------------
   sweep = [m for m in leaf_family(3, 3) + handpicked_roots()
            if is_finite(m) and count_members(m) <= (12 if tier == 'quick' else 36)]
   for m in sweep:
-    if time.time() - t0 > budget_s:
+    if time.process_time() - t0 > budget_s:
       break
     _sweep_checks(Cx(rec, m, r, tier))
   return rec.result()
@@ -1685,7 +1689,14 @@ def _edit_bases(tier, r):
   ]
   extra = [m for m in handpicked_roots() + single_point_roots()
            + leaf_family(3, 3) if m not in bases and count_members(m) <= 30]
-  return bases + r.sample(extra, 1 if tier == 'quick' else len(extra))
+  if tier == 'quick':
+    return r.sample(bases, 8) + r.sample(extra, 2)
+  return bases + extra
+
+
+COPIES = [('clone', 'spec.clone()'), ('deep-clone', 'spec.clone(deep=True)'),
+          ('json', 'pg.from_json(spec.to_json())'),
+          ('deepcopy', '__import__("copy").deepcopy(spec)')]
 
 
 def drv_edited_specs(tier, seed):
@@ -1695,7 +1706,7 @@ def drv_edited_specs(tier, seed):
   cap = 12 if quick else 80
   rec = Recorder(
       PROP, 'a specification edited in place is again an exact specification',
-      scope=(f'{13 if quick else "all"} finite base specs (<=30 members), '
+      scope=(f'{10 if quick else "all"} finite base specs (<=30 members), '
              f'each taken through a seeded chain of {steps} in-place edits '
              '(edit kinds taken round-robin: num_choices / distinct / sorted / '
              'several flags at once; append, insert, remove, replace a '
@@ -1704,12 +1715,17 @@ def drv_edited_specs(tier, seed):
              'on the node itself or through root.rebind; result <= '
              f'{cap} members); the object is used before every edit (sizes of '
              'all nodes, iteration, validation, random draw); after every '
-             'edit: reported size of every node, full iteration, '
-             'validate/bind of members, of members of the previous spec that '
+             'edit: reported size of every node, full iteration, and (quick: '
+             'taking turns) validate/bind of members, of members of the previous spec that '
              'are no longer members and of one-step corruptions, '
-             'from_numbers, random draws, sweeping'))
+             'from_numbers, random draws, sweeping; at the end of each chain '
+             'the object is copied (clone / deep clone / JSON round trip / '
+             'copy.deepcopy in rotation): the copy, the copy after one more '
+             'edit, and the original after the copy was edited are checked '
+             '(sizes, full iteration)'))
   r = rng(seed, 'c11.edit')
   counter = 0
+  copies = 0
   used = {}
   for m0 in _edit_bases(tier, r):
     env = {}
@@ -1717,7 +1733,7 @@ def drv_edited_specs(tier, seed):
     setup = PRELUDE_SHORT + WARM + f'spec = {src(m0)}\n'
     env['spec'] = build(m0)
     m = m0
-    for _ in range(steps):
+    for step in range(steps):
       by_kind = {}
       for kind, new, stmts in model_edits(m):
         if count_members(new) <= cap and weight(new) <= 12:
@@ -1755,12 +1771,56 @@ def drv_edited_specs(tier, seed):
       stale = stale if len(stale) <= n_stale else r.sample(stale, n_stale)
       _size_checks(cx)
       _iter_checks(cx, cap, light=True)
-      _member_checks(cx, 3 if quick else 8, 5 if quick else 30,
-                     3 if quick else 12,
-                     extra=[('member-before-the-edit', t) for t in stale])
-      _random_checks(cx, 3 if quick else 8)
-      if len(cx.mem) <= (6 if quick else 36):
+      # quick: the remaining entry points take turns along the chain
+      if not quick or counter % 2:
+        _member_checks(cx, 3 if quick else 8, 5 if quick else 30,
+                       3 if quick else 12,
+                       extra=[('member-before-the-edit', t) for t in stale])
+      if not quick or not counter % 2:
+        _random_checks(cx, 3 if quick else 8)
+      if len(cx.mem) <= (6 if quick else 36) and (
+          not quick or step == steps - 1):
         _sweep_checks(cx, light=quick)
+    # A copy of the used and edited object is a specification of its own:
+    # it behaves as the model, it can be edited, and editing it leaves the
+    # original as it was.
+    how, expr = COPIES[copies % len(COPIES)]
+    copies += 1
+    edits = [(kind, new, stmts) for kind, new, stmts in model_edits(m)
+             if count_members(new) <= cap and weight(new) <= 12]
+    if not edits:
+      continue
+    kind, new, stmts = r.choice(edits)
+    try:
+      exec(f'_use(spec); orig = spec; spec = {expr}', env)  # pylint: disable=exec-used
+    except Exception as e:  # pylint: disable=broad-except
+      rec.case(f'copy[{how}]/raises', setup, False,
+               f'{expr} raised {type(e).__name__}: {e}',
+               setup + f'_use(spec); spec = {expr}')
+      continue
+    setup += f'_use(spec); orig = spec; spec = {expr}\n'
+    cx = Cx(rec, m, r, tier, spec=env['spec'], setup=setup,
+            label=setup[len(PRELUDE_SHORT) + len(WARM):], pre=f'copy[{how}]')
+    _size_checks(cx)
+    if not quick:
+      _iter_checks(cx, cap, light=True)
+    try:
+      exec('_use(spec)\n' + stmts[0], env)  # pylint: disable=exec-used
+    except Exception:  # pylint: disable=broad-except
+      continue
+    setup += f'_use(spec); {stmts[0]}\n'
+    cx = Cx(rec, new, r, tier, spec=env['spec'], setup=setup,
+            label=setup[len(PRELUDE_SHORT) + len(WARM):],
+            pre=f'copy[{how}]-edited')
+    _size_checks(cx)
+    _iter_checks(cx, cap, light=True)
+    _random_checks(cx, 2)
+    setup += 'spec = orig\n'
+    cx = Cx(rec, m, r, tier, spec=env['orig'], setup=setup,
+            label=setup[len(PRELUDE_SHORT) + len(WARM):],
+            pre=f'original-of-edited-copy[{how}]')
+    _size_checks(cx)
+    _iter_checks(cx, cap, light=True)
   return rec.result()
 
 
@@ -1848,6 +1908,8 @@ def drv_bind_sequences(tier, seed):
                    f'{t!r} was refused by every attempt so far but reports a '
                    f'spec ({prev})', pre + lines + 'assert d.spec is None')
         last = (which, rej)
+        if not ok:
+          break        # later attempts would only restate this failure
   return rec.result()
 
 
